@@ -3,6 +3,8 @@ pub mod stdlib;
 pub mod vm;
 #[cfg(vbxq_aelys_lang_verif)]
 pub mod verif;
+#[cfg(vbxq_aelys_lang_verif)]
+pub mod verif_sites;
 
 pub use native::*;
 pub use stdlib::*;
